@@ -20,7 +20,7 @@ import (
 
 // op is one step of the client script.
 type op struct {
-	K    string `json:"k"` // syn data wu rst settings ping sync settle gate headers synreply goaway unknown waitdone
+	K    string `json:"k"` // syn data wu rst settings ping sync settle gate gatenow headers synreply goaway unknown waitdone
 	ID   uint32 `json:"id,omitempty"`
 	Tok  int    `json:"tok,omitempty"`
 	Fin  bool   `json:"fin,omitempty"`
@@ -301,6 +301,18 @@ func runCase(spec *caseSpec) *caseResult {
 			conn.Locked(func() { model.GateOpened(o.Tok) })
 			cs.openGate(o.Tok, o.Gate)
 			conn.Note(spdycli.Event{Note: fmt.Sprintf("gate %d of handler %d opened", o.Gate, o.Tok)})
+		case "gatenow":
+			// hand-written staging only: the gate is opened N microseconds after
+			// the previous frame was written, without the PING round trip of
+			// "gate", so the handler moves on while the server is still
+			// processing that frame. The model drops every obligation that
+			// relies on handler bounds (GateOpened with frames in flight).
+			if o.N > 0 {
+				time.Sleep(time.Duration(o.N) * time.Microsecond) // shapes the workload, never an oracle
+			}
+			conn.Locked(func() { model.GateOpened(o.Tok) })
+			cs.openGate(o.Tok, o.Gate)
+			conn.Note(spdycli.Event{Note: fmt.Sprintf("gate %d of handler %d opened without a round trip", o.Gate, o.Tok)})
 		case "headers":
 			werr = conn.Headers(spdycli.KHeaders, o.ID, o.Fin, hdr{"x-late": {"1"}})
 		case "synreply":
